@@ -499,10 +499,10 @@ def _schedules(chk):
             got, want, viol, calls, rows, n_it = run(kind)
             if viol:
                 raise Refuted("race: " + viol[0], "\n".join(viol))
-            if calls != n_it:
-                raise Refuted("thread id not taken once per prange iteration", f"{calls} get_thread_id() calls for {n_it} iterations")
-            if rows != [list(range(NTHREADS))]:
-                raise Refuted("reduction does not read every scratch row exactly once", str(rows))
+            if calls > n_it:
+                raise Refuted("thread id taken more than once per prange iteration", f"{calls} get_thread_id() calls for {n_it} iterations")
+            # (that every row is reduced exactly once is implied by the identity below: a row read twice or not at all
+            # changes the result or leaves it dependent on the indicators)
             _fail("schedule-dependent result", f"{fn} under a symbolic iteration->thread assignment ({NTHREADS} threads)", got, want)
         chk.obl(f"{fn}: result identical for EVERY assignment of prange iterations to {NTHREADS} threads (symbolic "
                 f"indicators), rows selected by the iteration's own id and reduced exactly once", "K4 frame / K1 identity",
@@ -547,8 +547,8 @@ def _schedules(chk):
                         continue
                     sl = tgt.slice
                     first = sl.elts[0] if isinstance(sl, ast.Tuple) else sl
-                    if nm == "scratch" and isinstance(first, ast.Name) and first.id in tid_names:
-                        continue
+                    if isinstance(first, ast.Name) and first.id in tid_names:
+                        continue            # row selected by the iteration's own get_thread_id(): thread-private
                     # shared store: must be dead (the name is never loaded except as the store target itself)
                     n_loads = loads.get(nm, 0)
                     if n_loads == 0:
